@@ -40,8 +40,13 @@ structure SubSt where
   react : Option (Nat × Nat)
   live : Bool := true        -- its subscription disposable has not run
   stopped : Bool := false    -- its AutoDetachObserver is stopped
-  returned : Bool := false   -- its `subscribe` call has returned (the harness holds the disposable)
+  returned : Bool := false   -- its subscription disposable has been assigned to its AutoDetachObserver
+  held : Bool := false       -- its `subscribe` call has returned: the caller holds the disposable
   got : Nat := 0
+  -- ReplaySubject only: the subscriber's `ScheduledObserver`
+  q : List (Notif Nat) := []   -- queued notifications
+  acquired : Bool := false     -- `is_acquired`: a `run` is scheduled / running
+  soStopped : Bool := false    -- the ScheduledObserver (an `Observer`) is stopped: it queues nothing more
 deriving Repr
 
 structure View where
@@ -59,9 +64,14 @@ inductive Task where
   | subjSub (i : Nat)
   | deliver (i : Nat) (n : Notif Nat)
   | returned (i : Nat)
+  | held (i : Nat)
   | disposeSub (i : Nat)
   | disposeHandle (h : Nat)
   | closeSrc (sid : Nat)
+  | ensureActive (i : Nat)     -- ScheduledObserver.ensure_active
+  | schedule (i : Nat)         -- CurrentThreadScheduler.schedule(so_i.run): trampoline
+  | soRun (i : Nat)            -- ScheduledObserver.run
+  | trampDrain                 -- the trampoline takes its next item, or goes idle
 deriving Repr
 
 structure SW where
@@ -83,6 +93,9 @@ structure SW where
   views : List View := []
   subs : List (Nat × SubSt) := []
   out : List (Nat × Notif Nat) := []
+  /-- the thread's trampoline (`CurrentThreadScheduler.singleton()`): `none` = idle, `some q` = running, with
+  the `ScheduledObserver.run`s queued behind the running one -/
+  tramp : Option (List Nat) := none
 deriving Repr
 
 def getSub (w : SW) (i : Nat) : Option SubSt := w.subs.lookup i
@@ -99,21 +112,33 @@ def tag (sid : Nat) : Notif Nat → Notif Nat
   | .next v => .next (v + 100 * (sid + 1))
   | n => n
 
+/-- `so.on_next / on_error / on_completed` on the ScheduledObserver of subscriber `i`: queued unless
+that observer is stopped; a terminal stops it -/
+def enqueue (w : SW) (n : Notif Nat) (i : Nat) : SW :=
+  match getSub w i with
+  | some s => if s.soStopped then w else setSub w i { s with q := s.q ++ [n], soStopped := n.isTerminal }
+  | none => w
+
 /-- one task: the new state and the tasks it expands to (executed before the rest of the stack) -/
 def step (w : SW) : Task → SW × List Task
   | .call (.sub i view react) =>
-    let w1 := setSub w i { view := view, react := react }
+    -- `Observable.subscribe` runs the subscription inside the thread's trampoline when that is idle
+    -- (`schedule_required()`), and returns after the trampoline has drained
+    let wrap := w.tramp.isNone
+    let w0 := if wrap then { w with tramp := some [] } else w
+    let w1 := setSub w0 i { view := view, react := react }
+    let tail := [Task.returned i] ++ (if wrap then [Task.trampDrain] else []) ++ [Task.held i]
     match view with
-    | none => (w1, [.subjSub i, .returned i])
+    | none => (w1, [.subjSub i] ++ tail)
     | some k =>
       -- count += 1; should_connect = count == 1; source.subscribe(observer); if should_connect: connect()
       let v := getView w1 k
       let c := v.count + 1
       (setView w1 k { v with count := c },
-       [.subjSub i] ++ (if c == 1 then [.connect, .storeConn k] else []) ++ [.returned i])
+       [.subjSub i] ++ (if c == 1 then [.connect, .storeConn k] else []) ++ tail)
   | .call (.unsub j) =>
     match getSub w j with
-    | some s => if s.returned && s.live then (w, [.disposeSub j]) else (w, [])
+    | some s => if s.held && s.live then (w, [.disposeSub j]) else (w, [])
     | none => (w, [])
   | .call .connect => (w, [.connect, .recordHandle])
   | .call (.disconnect k) =>
@@ -125,13 +150,21 @@ def step (w : SW) : Task → SW × List Task
     if w.hasSub then (w, [])
     else
       let sid := w.nSrc
+      -- `source.subscribe(subject)` is an `Observable.subscribe` too: trampolined when idle
+      let wrap := w.tramp.isNone
       ({ w with hasSub := true, nSrc := sid + 1, srcOpen := w.srcOpen ++ [sid], pending := some sid,
-                maxOpen := max w.maxOpen (w.srcOpen.length + 1) },
-       w.syncMsgs.map (fun n => Task.emit sid (tag sid n)) ++ [.connectP3 sid])
+                maxOpen := max w.maxOpen (w.srcOpen.length + 1), tramp := if wrap then some [] else w.tramp },
+       w.syncMsgs.map (fun n => Task.emit sid (tag sid n)) ++ (if wrap then [Task.trampDrain] else []) ++ [.connectP3 sid])
   | .emit sid n =>
     if w.srcOpen.contains sid then
       let r := w.subj.onNotif n
-      ({ w with subj := r.1 }, r.2.map (fun d => Task.deliver d.1 d.2) ++ (if n.isTerminal then [.closeSrc sid] else []))
+      if w.subj.isReplay then
+        -- ReplaySubject: `for o in observers: o.on_next(v)` (queued), then `for o in observers: o.ensure_active()`
+        let obs := r.2.map (fun d => d.1)
+        (obs.foldl (fun acc i => enqueue acc n i) { w with subj := r.1 },
+         obs.map Task.ensureActive ++ (if n.isTerminal then [.closeSrc sid] else []))
+      else
+        ({ w with subj := r.1 }, r.2.map (fun d => Task.deliver d.1 d.2) ++ (if n.isTerminal then [.closeSrc sid] else []))
     else (w, [])
   | .connectP3 sid =>
     -- self.subscription = CompositeDisposable(subscription, Disposable(dispose))
@@ -143,7 +176,10 @@ def step (w : SW) : Task → SW × List Task
   | .recordHandle => ({ w with retHandles := w.retHandles ++ [w.curHandle] }, [])
   | .subjSub i =>
     let r := w.subj.subscribe i
-    ({ w with subj := r.1 }, r.2.map (fun d => Task.deliver d.1 d.2))
+    if w.subj.isReplay then
+      -- the buffer (and the terminal of a stopped subject) is queued on the new ScheduledObserver, then `ensure_active`
+      ((r.2.map (fun d => d.2)).foldl (fun acc n => enqueue acc n i) { w with subj := r.1 }, [.ensureActive i])
+    else ({ w with subj := r.1 }, r.2.map (fun d => Task.deliver d.1 d.2))
   | .deliver i n =>
     match getSub w i with
     | none => (w, [])
@@ -169,12 +205,16 @@ def step (w : SW) : Task → SW × List Task
     match getSub w i with
     | none => (w, [])
     | some s => (setSub w i { s with returned := true }, if s.stopped && s.live then [.disposeSub i] else [])
+  | .held i =>
+    match getSub w i with
+    | none => (w, [])
+    | some s => (setSub w i { s with held := true }, [])
   | .disposeSub i =>
     match getSub w i with
     | none => (w, [])
     | some s =>
       if s.live then
-        let w1 := setSub { w with subj := w.subj.unsubscribe i } i { s with live := false, stopped := true }
+        let w1 := setSub { w with subj := w.subj.unsubscribe i } i { s with live := false, stopped := true, soStopped := true }
         match s.view with
         | none => (w1, [])
         | some k =>
@@ -194,6 +234,27 @@ def step (w : SW) : Task → SW × List Task
       else (w, [])
     | none => (w, [])
   | .closeSrc sid => ({ w with srcOpen := w.srcOpen.erase sid }, [])
+  | .ensureActive i =>
+    match getSub w i with
+    | some s => if !s.q.isEmpty && !s.acquired then (setSub w i { s with acquired := true }, [.schedule i]) else (w, [])
+    | none => (w, [])
+  | .schedule i =>
+    -- Trampoline.run: run now if idle (then drain), else queue behind the running item
+    match w.tramp with
+    | none => ({ w with tramp := some [] }, [.soRun i, .trampDrain])
+    | some q => ({ w with tramp := some (q ++ [i]) }, [])
+  | .trampDrain =>
+    match w.tramp with
+    | some (j :: q) => ({ w with tramp := some q }, [.soRun j, .trampDrain])
+    | _ => ({ w with tramp := none }, [])
+  | .soRun i =>
+    -- run(): pop one queued action, perform it (the subscriber's callback runs here), schedule itself again
+    match getSub w i with
+    | some s =>
+      match s.q with
+      | [] => (setSub w i { s with acquired := false }, [])
+      | n :: rest => (setSub w i { s with q := rest }, [.deliver i n, .schedule i])
+    | none => (w, [])
 
 /-- run the task stack depth-first -/
 def exec : Nat → SW → List Task → SW
